@@ -74,9 +74,16 @@ func runC17(c *harness.Case) {
 	}
 	defer eng.Close()
 	var kv storage.KvStorage = eng.KV
-	if noTTL {
+	var raceHook func(kind string, key []byte) // set below: placement of a client update inside the expiry
+	if noTTL || (base == "tikv" && mode != "native") {
 		w := harness.NewWrap(eng.KV)
-		w.NoTTL = true
+		w.NoTTL = noTTL
+		w.DelFault = func(kind string, key []byte) error {
+			if raceHook != nil {
+				raceHook(kind, key)
+			}
+			return nil
+		}
 		kv = w
 	}
 	if mode == "scanner-direct" {
@@ -191,7 +198,29 @@ func runC17(c *harness.Case) {
 	if !write(fresh, harness.SeqOp{Kind: "create", Key: fresh.key, Val: []byte("new")}) {
 		return
 	}
+	// placement: when the expiry is about to remove the index record of an old event, a client updates that event
+	// first (the update lands between the scan reading the index and deleting it)
+	raced := keys[2]
+	racedDone := false
+	if !control && c.Index%2 == 1 {
+		raceHook = func(kind string, key []byte) {
+			raw, rev, derr := coderC.Decode(key)
+			if racedDone || derr != nil || rev != 0 || string(raw) != raced.key {
+				return
+			}
+			racedDone = true
+			if lv := m.Live(raced.key); lv != nil {
+				hist = append(hist, "    (placed: the following update lands just before the expiry deletes this event's index record)")
+				write(raced, harness.SeqOp{Kind: "update", Key: raced.key, Val: []byte("raced"), Exp: lv.Rev})
+				raced.updated = true
+			}
+		}
+	}
 	tEnd := compact("second")
+	raceHook = nil
+	if racedDone {
+		c.Stat("updates_placed_inside_expiry", 1)
+	}
 	// give native TTL timers a moment (memkv fires timers asynchronously)
 	time.Sleep(50 * time.Millisecond)
 	tEnd = time.Now()
